@@ -16,6 +16,11 @@ from nmfu_api import nmfu
 END = 256
 
 
+class IfToks(list):
+    """token list of an exported `if` statement that remembers the block indices of its branches"""
+    branch_blocks = ()
+
+
 class Unsupported(Exception):
     pass
 
@@ -276,6 +281,8 @@ class SrcExporter:
         if d == "builtin_math_var":
             if t.children[0].value != "last":
                 raise Unsupported("builtin")
+            if not getattr(self, "_in_do", 0):
+                self.last_outside_foreach = True     # ($last of a per-byte action is the byte being read: no slack)
             return ["last"]
         if d == "not_expr":
             return ["bin", "eq", "0"] + self.expr(t.children[0], target, env) + ["litb", "0"]
@@ -521,7 +528,16 @@ class SrcExporter:
             acts_t = [c for c in s.children if not isinstance(c, lark.Token) and c.data == "foreach_actions"][0]
             acts = []
             for a in acts_t.children:
-                for st in self.stmt(a, env, ([], [])):
+                self._in_do = getattr(self, "_in_do", 0) + 1
+                try:
+                    sts = self.stmt(a, env, ([], []))
+                finally:
+                    self._in_do -= 1
+                for st in sts:
+                    if st[0] == "if" and self.actions_only_if(st):
+                        # an `if` over actions is one (conditional) per-byte action; its branches are blocks
+                        acts.append(["cond"] + st[1:])
+                        continue
                     if st[0] != "a":
                         raise Unsupported("foreach action that matches")
                     acts.append(st[1:])
@@ -532,14 +548,32 @@ class SrcExporter:
         if d == "if_stmt":
             toks = []
             n = 0
+            blks = []
             for c in s.children:
                 if c.data == "if_condition":
-                    toks += self.cond(c.children[0], env) + [str(self.block(c.children[1:], env, pc))]
+                    blks.append(self.block(c.children[1:], env, pc))
+                    toks += self.cond(c.children[0], env) + [str(blks[-1])]
                 else:
-                    toks += ["celse", str(self.block(c.children, env, pc))]
+                    blks.append(self.block(c.children, env, pc))
+                    toks += ["celse", str(blks[-1])]
                 n += 1
-            return [["if", str(n)] + toks]
+            st = IfToks(["if", str(n)] + toks)
+            st.branch_blocks = blks
+            return [st]
         raise Unsupported("statement " + d)
+
+    def actions_only_if(self, st):
+        """st: an exported `if` statement (an IfToks): do all its branch blocks consist of plain actions?"""
+        for b in st.branch_blocks:
+            for inner in self.blocks[b]:
+                if inner[0] == "a":
+                    if inner[1] in ("break", "finish", "finishc", "yield"):
+                        return False
+                    continue
+                if inner[0] == "if" and self.actions_only_if(inner):
+                    continue
+                return False
+        return True
 
     def new_block(self, stmts):
         # stmts: list of token lists
@@ -592,3 +626,10 @@ class SrcExporter:
 
 def export_source(src):
     return SrcExporter(src).export()
+
+
+def export_source_info(src):
+    """-> (tokens, reads $last outside the per-byte actions of a foreach)"""
+    e = SrcExporter(src)
+    t = e.export()
+    return t, bool(getattr(e, "last_outside_foreach", False))
